@@ -154,6 +154,7 @@ class Snapshot:
         self.iff1 = 0
         self.iff2 = 0
         self.im = 0
+        self.halted = 0
         self.tstates = 0
         self.memptr = 0
         self.out7ffd = 0
@@ -317,6 +318,7 @@ class SZX(Snapshot):
                         self.iff2 = block[27]
                         self.im = block[28]
                         self.tstates = get_dword(block, 29)
+                        self.halted = (block[34] // 2) % 2
                         self.memptr = get_word(block, 35)
                     elif block_id == b'SPCR':
                         self.border = block[0] % 8
@@ -370,6 +372,9 @@ class SZX(Snapshot):
                     z80r[26] = z80r[27] = get_int_param(val) & 255
                 elif name == 'im':
                     z80r[28] = get_int_param(val) & 3
+                elif name == 'halted':
+                    # chFlags bit 1 (ZXSTZF_HALTED)
+                    z80r[34] = (z80r[34] & 253) | 2 * (get_int_param(val) & 1)
                 elif name == 'tstates':
                     tstates = get_int_param(val) % FRAME_DURATIONS[self.header[6] > 1]
                     z80r[29:32] = (tstates % 256, (tstates // 256) % 256, (tstates // 65536) % 256)
